@@ -1,8 +1,17 @@
 package main
 
 import (
+	"bytes"
 	"encoding/json"
+	"fmt"
+	"go/types"
+	"math/big"
 	"os"
+	"os/exec"
+	"path/filepath"
+	"regexp"
+	"strings"
+	"time"
 )
 
 // writeReplay writes the replay file for a failed obligation and returns the suffix of the VIOLATION line.
@@ -25,7 +34,7 @@ func writeReplay(path string, cfg *PropConfig, r *NamedResult, repo, verif strin
 			rec["per_solver"] = r.Failing.Res.All
 			if len(r.Failing.Res.Model) > 0 {
 				rec["model"] = r.Failing.Res.Model
-				status, detail := tryReplay(cfg, r, repo, verif)
+				status, detail := tryReplay(cfg, r, repo, verif, rec)
 				rec["replay_status"] = status
 				rec["replay_detail"] = detail
 				if status == "confirmed" {
@@ -39,6 +48,576 @@ func writeReplay(path string, cfg *PropConfig, r *NamedResult, repo, verif strin
 	return suffix
 }
 
-func tryReplay(cfg *PropConfig, r *NamedResult, repo, verif string) (string, string) {
-	return "not-attempted", "no replay harness for this function kind"
+// ---------------------------------------------------------------------------------------
+// concrete values
+
+type cDec struct {
+	Nil bool
+	Raw *big.Int
+}
+type cCoin struct {
+	Denom  string
+	Amount *big.Int
+}
+type cStruct struct{ Fields map[string]interface{} }
+
+var strValRe = regexp.MustCompile(`^Str!val!(\d+)$`)
+
+func modelStr(v string) string {
+	if m := strValRe.FindStringSubmatch(v); m != nil {
+		return "denom" + m[1]
+	}
+	if strings.HasPrefix(v, "|str:") {
+		var s string
+		fmt.Sscanf(strings.Trim(v, "|")[4:], "%q", &s)
+		return s
+	}
+	return "s" + sanitizeFile(v)
+}
+
+func modelInt(m map[string]string, key string) (*big.Int, bool) {
+	v, ok := m[key]
+	if !ok {
+		return nil, false
+	}
+	s, ok := smtIntValue(v)
+	if !ok {
+		return nil, false
+	}
+	b, ok := new(big.Int).SetString(s, 10)
+	return b, ok
+}
+
+// concreteParam builds the Go expression and the concrete value of a parameter from the model.
+func concreteParam(m map[string]string, term string, t types.Type) (string, interface{}, bool) {
+	t = types.Unalias(t)
+	switch namedPath(t) {
+	case "cosmossdk.io/math.Int":
+		b, ok := modelInt(m, term)
+		if !ok {
+			b = big.NewInt(0)
+		}
+		return fmt.Sprintf("vrInt(%q)", b.String()), b, true
+	case "cosmossdk.io/math.LegacyDec":
+		isn := m["(Dec.isnil "+term+")"] == "true"
+		raw, ok := modelInt(m, "(Dec.raw "+term+")")
+		if !ok {
+			raw = big.NewInt(0)
+		}
+		if isn {
+			return "sdkmath.LegacyDec{}", cDec{Nil: true, Raw: big.NewInt(0)}, true
+		}
+		return fmt.Sprintf("sdkmath.LegacyNewDecFromBigIntWithPrec(vrBig(%q), 18)", raw.String()), cDec{Raw: raw}, true
+	case "github.com/cosmos/cosmos-sdk/types.Coin":
+		d := modelStr(m["(Coin.Denom "+term+")"])
+		a, ok := modelInt(m, "(Coin.Amount "+term+")")
+		if !ok {
+			a = big.NewInt(0)
+		}
+		return fmt.Sprintf("sdk.Coin{Denom: %q, Amount: vrInt(%q)}", d, a.String()), cCoin{d, a}, true
+	}
+	switch u := t.Underlying().(type) {
+	case *types.Basic:
+		switch {
+		case u.Info()&types.IsBoolean != 0:
+			return m[term], m[term] == "true", true
+		case u.Info()&types.IsInteger != 0:
+			b, ok := modelInt(m, term)
+			if !ok {
+				b = big.NewInt(0)
+			}
+			return fmt.Sprintf("%s(%s)", types.TypeString(t, func(p *types.Package) string { return p.Name() }), b.String()), b, true
+		case u.Info()&types.IsString != 0:
+			s := modelStr(m[term])
+			return fmt.Sprintf("%q", s), s, true
+		}
+	}
+	return "", nil, false
+}
+
+func resultPrinter(i int, t types.Type) (string, bool) {
+	v := fmt.Sprintf("r%d", i)
+	t = types.Unalias(t)
+	switch namedPath(t) {
+	case "cosmossdk.io/math.Int":
+		return fmt.Sprintf(`fmt.Println("VR_RESULT", %d, "int", %s.String())`, i, v), true
+	case "cosmossdk.io/math.LegacyDec":
+		return fmt.Sprintf(`if %s.IsNil() { fmt.Println("VR_RESULT", %d, "dec", "nil") } else { fmt.Println("VR_RESULT", %d, "dec", %s.BigInt().String()) }`, v, i, i, v), true
+	}
+	if types.Identical(t, types.Universe.Lookup("error").Type()) {
+		return fmt.Sprintf(`fmt.Println("VR_RESULT", %d, "err", %s != nil)`, i, v), true
+	}
+	if b, ok := t.Underlying().(*types.Basic); ok {
+		switch {
+		case b.Info()&types.IsInteger != 0:
+			return fmt.Sprintf(`fmt.Println("VR_RESULT", %d, "int", %s)`, i, v), true
+		case b.Info()&types.IsBoolean != 0:
+			return fmt.Sprintf(`fmt.Println("VR_RESULT", %d, "bool", %s)`, i, v), true
+		}
+	}
+	return "", false
+}
+
+func tryReplay(cfg *PropConfig, r *NamedResult, repo, verif string, rec map[string]interface{}) (string, string) {
+	o := r.Failing
+	if o == nil || o.prog == nil {
+		return "not-attempted", "no program"
+	}
+	p := o.prog
+	fn := p.findFunc(o.Unit)
+	c := p.contracts[o.Unit]
+	if fn == nil || c == nil {
+		return "not-attempted", "obligation is not attached to a function under contract"
+	}
+	if fn.Signature.Recv() != nil {
+		// only value receivers that are plain data could be supported; keep to free functions and data receivers
+	}
+	model := o.Res.Model
+	var argExprs []string
+	env := map[string]interface{}{}
+	for _, prm := range fn.Params {
+		ex, val, ok := concreteParam(model, "in_"+prm.Name(), prm.Type())
+		if !ok {
+			return "not-attempted", fmt.Sprintf("parameter %s of type %s cannot be rebuilt from a model (keeper/world functions have no replay harness)", prm.Name(), prm.Type())
+		}
+		argExprs = append(argExprs, ex)
+		env[prm.Name()] = val
+	}
+	var printers []string
+	var rnames []string
+	res := fn.Signature.Results()
+	for i := 0; i < res.Len(); i++ {
+		pr, ok := resultPrinter(i, res.At(i).Type())
+		if !ok {
+			return "not-attempted", fmt.Sprintf("result type %s not printable", res.At(i).Type())
+		}
+		printers = append(printers, pr)
+		rnames = append(rnames, fmt.Sprintf("r%d", i))
+	}
+	call := fn.Name() + "(" + strings.Join(argExprs, ", ") + ")"
+	if recv := fn.Signature.Recv(); recv != nil {
+		return "not-attempted", "method receivers are not rebuilt from models"
+	}
+	pkgDir := ""
+	for _, pk := range p.pkgs {
+		if pk.Types == fn.Pkg.Pkg && len(pk.GoFiles) > 0 {
+			pkgDir = filepath.Dir(pk.GoFiles[0])
+		}
+	}
+	if pkgDir == "" {
+		return "not-attempted", "package directory not found"
+	}
+	testName := "TestVerifReplay" + fmt.Sprint(time.Now().UnixNano()%1000000)
+	var src bytes.Buffer
+	fmt.Fprintf(&src, "package %s\n\nimport (\n\t\"fmt\"\n\t\"math/big\"\n\t\"testing\"\n\n\tsdkmath \"cosmossdk.io/math\"\n\tsdk \"github.com/cosmos/cosmos-sdk/types\"\n)\n\n", fn.Pkg.Pkg.Name())
+	fmt.Fprintf(&src, "var _ = sdk.Coin{}\nvar _ = big.NewInt\nvar _ = sdkmath.NewInt\n\n")
+	fmt.Fprintf(&src, "func vrBig(s string) *big.Int { b, _ := new(big.Int).SetString(s, 10); return b }\nfunc vrInt(s string) sdkmath.Int { i, _ := sdkmath.NewIntFromString(s); return i }\n\n")
+	fmt.Fprintf(&src, "func %s(t *testing.T) {\n\tdefer func() {\n\t\tif r := recover(); r != nil {\n\t\t\tfmt.Println(\"VR_PANIC\", r)\n\t\t}\n\t}()\n", testName)
+	if len(rnames) > 0 {
+		fmt.Fprintf(&src, "\t%s := %s\n", strings.Join(rnames, ", "), call)
+	} else {
+		fmt.Fprintf(&src, "\t%s\n", call)
+	}
+	for _, pr := range printers {
+		fmt.Fprintf(&src, "\t%s\n", pr)
+	}
+	fmt.Fprintf(&src, "\tfmt.Println(\"VR_DONE\")\n}\n")
+	tmp, err := os.MkdirTemp("", "govc-replay-")
+	if err != nil {
+		return "not-attempted", err.Error()
+	}
+	defer os.RemoveAll(tmp)
+	testFile := filepath.Join(tmp, "zz_verif_replay_test.go")
+	os.WriteFile(testFile, src.Bytes(), 0o644)
+	ov := map[string]interface{}{"Replace": map[string]string{filepath.Join(pkgDir, "zz_verif_replay_test.go"): testFile}}
+	ovb, _ := json.Marshal(ov)
+	ovFile := filepath.Join(tmp, "overlay.json")
+	os.WriteFile(ovFile, ovb, 0o644)
+	cmd := exec.Command("go", "test", "-overlay", ovFile, "-vet=off", "-count=1", "-timeout", "60s", "-run", "^"+testName+"$", "-v", ".")
+	cmd.Dir = pkgDir
+	cmd.Env = append(os.Environ(), "GOFLAGS=-mod=mod", "GOPROXY=off", "GOSUMDB=off", "GOTOOLCHAIN=local")
+	var out bytes.Buffer
+	cmd.Stdout = &out
+	cmd.Stderr = &out
+	runErr := cmd.Run()
+	output := out.String()
+	rec["replay_call"] = call
+	rec["replay_test"] = src.String()
+	if !strings.Contains(output, "VR_DONE") && !strings.Contains(output, "VR_PANIC") {
+		return "not-attempted", "replay test did not run: " + firstLines(output, 15) + fmt.Sprint(runErr)
+	}
+	panicked := strings.Contains(output, "VR_PANIC")
+	rec["replay_output"] = firstLines(grepLines(output, "VR_"), 10)
+	if o.Kind == "nopanic" {
+		if panicked {
+			return "confirmed", "the real function panics on the model's inputs: " + firstLines(grepLines(output, "VR_PANIC"), 2)
+		}
+		return "not-reproduced", "the real function does not panic on the model's inputs"
+	}
+	if panicked {
+		return "not-reproduced", "the real function panics on the model's inputs (clause not evaluated): " + firstLines(grepLines(output, "VR_PANIC"), 2)
+	}
+	// bind results
+	names := c.Returns
+	for _, line := range strings.Split(output, "\n") {
+		f := strings.Fields(line)
+		if len(f) < 4 || f[0] != "VR_RESULT" {
+			continue
+		}
+		var idx int
+		fmt.Sscan(f[1], &idx)
+		var val interface{}
+		switch f[2] {
+		case "int":
+			b, _ := new(big.Int).SetString(f[3], 10)
+			val = b
+		case "dec":
+			if f[3] == "nil" {
+				val = cDec{Nil: true, Raw: big.NewInt(0)}
+			} else {
+				b, _ := new(big.Int).SetString(f[3], 10)
+				val = cDec{Raw: b}
+			}
+		case "bool":
+			val = f[3] == "true"
+		case "err":
+			val = errVal{NonNil: f[3] == "true"}
+		}
+		n := fmt.Sprintf("result%d", idx)
+		if idx < len(names) {
+			n = names[idx]
+		} else if rn := res.At(idx).Name(); rn != "" {
+			n = rn
+		} else if f[2] == "err" {
+			n = "err"
+		}
+		env[n] = val
+		if idx == 0 {
+			env["result"] = val
+		}
+	}
+	ce := &concEval{prog: p, env: env}
+	for _, l := range c.Lets {
+		v, err := ce.eval(l.Expr)
+		if err != nil {
+			return "not-attempted", "cannot evaluate let " + l.Label + " concretely: " + err.Error()
+		}
+		env[l.Label] = v
+	}
+	// find the clause
+	var clause *Clause
+	switch o.Kind {
+	case "post":
+		for _, e := range c.Ensures {
+			if e.Label == o.Label {
+				clause = e
+			}
+		}
+	}
+	if clause == nil {
+		return "not-attempted", "obligation kind " + o.Kind + " has no concrete clause evaluation"
+	}
+	// preconditions must hold on the model (otherwise the model is outside the contract)
+	for _, rq := range c.Requires {
+		v, err := ce.eval(rq.Expr)
+		if err != nil {
+			return "not-attempted", "cannot evaluate requires concretely: " + err.Error()
+		}
+		if b, ok := v.(bool); !ok || !b {
+			return "not-reproduced", "model does not satisfy precondition " + rq.Label
+		}
+	}
+	v, err := ce.eval(clause.Expr)
+	if err != nil {
+		return "not-attempted", "cannot evaluate clause concretely: " + err.Error()
+	}
+	if b, ok := v.(bool); ok && !b {
+		return "confirmed", fmt.Sprintf("real function on the model's inputs violates %q: %s", clause.Label, firstLines(grepLines(output, "VR_RESULT"), 4))
+	}
+	return "not-reproduced", "real function result satisfies the clause on the model's inputs"
+}
+
+type errVal struct{ NonNil bool }
+
+func grepLines(s, sub string) string {
+	var out []string
+	for _, l := range strings.Split(s, "\n") {
+		if strings.Contains(l, sub) {
+			out = append(out, strings.TrimSpace(l))
+		}
+	}
+	return strings.Join(out, "\n")
+}
+
+// ---------------------------------------------------------------------------------------
+// concrete evaluation of spec expressions
+
+type concEval struct {
+	prog *Program
+	env  map[string]interface{}
+}
+
+func (ce *concEval) eval(e *Expr) (interface{}, error) {
+	switch e.Kind {
+	case "num":
+		return e.Num, nil
+	case "str":
+		return e.Str, nil
+	case "bool":
+		return e.Name == "true", nil
+	case "id":
+		if v, ok := ce.env[e.Name]; ok {
+			return v, nil
+		}
+		switch e.Name {
+		case "DEC_ONE":
+			return decOne, nil
+		case "nil":
+			return nilSpec{}, nil
+		case "MAXU64":
+			return new(big.Int).Sub(two64, big.NewInt(1)), nil
+		}
+		if d := ce.prog.defines[e.Name]; d != nil && len(d.Params) == 0 {
+			return ce.eval(d.Body)
+		}
+		return nil, fmt.Errorf("unknown identifier %s", e.Name)
+	case "old":
+		return ce.eval(e.Args[0])
+	case "unop":
+		v, err := ce.eval(e.Args[0])
+		if err != nil {
+			return nil, err
+		}
+		if e.Name == "!" {
+			b, ok := v.(bool)
+			if !ok {
+				return nil, fmt.Errorf("! on non-bool")
+			}
+			return !b, nil
+		}
+		i, ok := v.(*big.Int)
+		if !ok {
+			return nil, fmt.Errorf("- on non-int")
+		}
+		return new(big.Int).Neg(i), nil
+	case "field":
+		b, err := ce.eval(e.Args[0])
+		if err != nil {
+			return nil, err
+		}
+		switch s := b.(type) {
+		case cCoin:
+			if strings.EqualFold(e.Name, "denom") {
+				return s.Denom, nil
+			}
+			return s.Amount, nil
+		case cStruct:
+			if v, ok := s.Fields[e.Name]; ok {
+				return v, nil
+			}
+		}
+		return nil, fmt.Errorf("field %s", e.Name)
+	case "binop":
+		a, err := ce.eval(e.Args[0])
+		if err != nil {
+			return nil, err
+		}
+		// lazy boolean ops
+		if ab, ok := a.(bool); ok {
+			switch e.Name {
+			case "&&":
+				if !ab {
+					return false, nil
+				}
+			case "||":
+				if ab {
+					return true, nil
+				}
+			case "==>":
+				if !ab {
+					return true, nil
+				}
+			}
+		}
+		b, err := ce.eval(e.Args[1])
+		if err != nil {
+			return nil, err
+		}
+		if _, ok := a.(nilSpec); ok {
+			a, b = b, a
+		}
+		if _, ok := b.(nilSpec); ok {
+			if ev, ok := a.(errVal); ok {
+				switch e.Name {
+				case "==":
+					return !ev.NonNil, nil
+				case "!=":
+					return ev.NonNil, nil
+				}
+			}
+			return nil, fmt.Errorf("nil comparison")
+		}
+		switch av := a.(type) {
+		case bool:
+			bv, ok := b.(bool)
+			if !ok {
+				return nil, fmt.Errorf("bool op mismatch")
+			}
+			switch e.Name {
+			case "&&":
+				return av && bv, nil
+			case "||":
+				return av || bv, nil
+			case "==>":
+				return !av || bv, nil
+			case "<==>", "==":
+				return av == bv, nil
+			case "!=":
+				return av != bv, nil
+			}
+		case string:
+			bv, ok := b.(string)
+			if !ok {
+				return nil, fmt.Errorf("string op mismatch")
+			}
+			switch e.Name {
+			case "==":
+				return av == bv, nil
+			case "!=":
+				return av != bv, nil
+			}
+		case *big.Int:
+			bv, ok := b.(*big.Int)
+			if !ok {
+				return nil, fmt.Errorf("int op mismatch")
+			}
+			r := new(big.Int)
+			switch e.Name {
+			case "+":
+				return r.Add(av, bv), nil
+			case "-":
+				return r.Sub(av, bv), nil
+			case "*":
+				return r.Mul(av, bv), nil
+			case "div":
+				if bv.Sign() == 0 {
+					return nil, fmt.Errorf("div by zero")
+				}
+				q, _ := new(big.Int).DivMod(av, bv, new(big.Int))
+				return q, nil
+			case "mod", "%":
+				if bv.Sign() == 0 {
+					return nil, fmt.Errorf("mod by zero")
+				}
+				_, m := new(big.Int).DivMod(av, bv, new(big.Int))
+				return m, nil
+			case "/":
+				if bv.Sign() == 0 {
+					return nil, fmt.Errorf("div by zero")
+				}
+				return r.Quo(av, bv), nil
+			case "==":
+				return av.Cmp(bv) == 0, nil
+			case "!=":
+				return av.Cmp(bv) != 0, nil
+			case "<":
+				return av.Cmp(bv) < 0, nil
+			case "<=":
+				return av.Cmp(bv) <= 0, nil
+			case ">":
+				return av.Cmp(bv) > 0, nil
+			case ">=":
+				return av.Cmp(bv) >= 0, nil
+			}
+		}
+		return nil, fmt.Errorf("operator %s on %T", e.Name, a)
+	case "call":
+		if d := ce.prog.defines[e.Name]; d != nil && len(d.Params) == len(e.Args) {
+			sub := &concEval{prog: ce.prog, env: map[string]interface{}{}}
+			for k, v := range ce.env {
+				sub.env[k] = v
+			}
+			for i, prm := range d.Params {
+				v, err := ce.eval(e.Args[i])
+				if err != nil {
+					return nil, err
+				}
+				sub.env[prm] = v
+			}
+			return sub.eval(d.Body)
+		}
+		var args []interface{}
+		for _, a := range e.Args {
+			v, err := ce.eval(a)
+			if err != nil {
+				return nil, err
+			}
+			args = append(args, v)
+		}
+		ints := func(n int) ([]*big.Int, bool) {
+			if len(args) != n {
+				return nil, false
+			}
+			var out []*big.Int
+			for _, a := range args {
+				i, ok := a.(*big.Int)
+				if !ok {
+					return nil, false
+				}
+				out = append(out, i)
+			}
+			return out, true
+		}
+		switch e.Name {
+		case "raw":
+			if d, ok := args[0].(cDec); ok {
+				return d.Raw, nil
+			}
+		case "isnil":
+			if d, ok := args[0].(cDec); ok {
+				return d.Nil, nil
+			}
+		case "dec":
+			if is, ok := ints(1); ok {
+				return cDec{Raw: is[0]}, nil
+			}
+		case "pow10":
+			if is, ok := ints(1); ok && is[0].IsInt64() && is[0].Int64() >= 0 && is[0].Int64() < 200 {
+				return new(big.Int).Exp(big.NewInt(10), is[0], nil), nil
+			}
+		case "min":
+			if is, ok := ints(2); ok {
+				if is[0].Cmp(is[1]) <= 0 {
+					return is[0], nil
+				}
+				return is[1], nil
+			}
+		case "max":
+			if is, ok := ints(2); ok {
+				if is[0].Cmp(is[1]) >= 0 {
+					return is[0], nil
+				}
+				return is[1], nil
+			}
+		case "abs":
+			if is, ok := ints(1); ok {
+				return new(big.Int).Abs(is[0]), nil
+			}
+		case "ite":
+			if len(args) == 3 {
+				if c, ok := args[0].(bool); ok {
+					if c {
+						return args[1], nil
+					}
+					return args[2], nil
+				}
+			}
+		case "tdiv":
+			if is, ok := ints(2); ok && is[1].Sign() != 0 {
+				return new(big.Int).Quo(is[0], is[1]), nil
+			}
+		}
+		return nil, fmt.Errorf("spec function %s not concretely evaluable", e.Name)
+	}
+	return nil, fmt.Errorf("cannot evaluate %s concretely", e)
 }
